@@ -558,4 +558,15 @@ def r_replay(a, tier):
     return replay_contracts(a, 'C04.R6')
 
 
-RULES = [r1_key_derivation, r2_ownership, r3_observer_purity, r4_flag_confinement, r5_settings_gate_only_the_store, r_replay]
+def r7_failure_memo(a, tier):
+    """what is memoized for a failure is what is raised to the caller (a replayed failure behaves like the first one)"""
+    from . import c06
+    rep = c06.r3_failure_conversion(a, tier)
+    rep.rule = 'C04.R7'
+    for f in rep.findings:
+        f.rule = 'C04.R7'
+    rep.text = '[= C06.R3] ' + rep.text
+    return rep
+
+
+RULES = [r1_key_derivation, r2_ownership, r3_observer_purity, r4_flag_confinement, r5_settings_gate_only_the_store, r_replay, r7_failure_memo]
